@@ -39,6 +39,7 @@ func vC13Session(c vSx) (res vC13Result) {
 	// element 7: well-formed flag, or (wellformed segClient segServer early (greeting...))
 	wellformed := false
 	segC, segS, early := 0, 0, 0
+	failAt := -1
 	var greet [][]byte
 	cfg := vBool(false)
 	if len(c.l) > 7 {
@@ -48,6 +49,9 @@ func vC13Session(c vSx) (res vC13Result) {
 			segC, segS, early = cfg.l[1].int(), cfg.l[2].int(), cfg.l[3].int()
 			for _, g := range cfg.l[4].l {
 				greet = append(greet, vC13Data(g))
+			}
+			if len(cfg.l) > 5 {
+				failAt = cfg.l[5].int()
 			}
 		} else {
 			wellformed = cfg.int() != 0
@@ -60,6 +64,9 @@ func vC13Session(c vSx) (res vC13Result) {
 	}
 	if early > len(ops) {
 		early = len(ops)
+	}
+	if failAt >= 0 {
+		early, wellformed = 0, false
 	}
 	res.fromSrv, res.pmd = srvWrites, comp
 
@@ -317,7 +324,7 @@ func vC13Session(c vSx) (res vC13Result) {
 			if err != nil {
 				return nil, err
 			}
-			rec = &vC13Rec{Conn: &vC13Seg{Conn: nc, mode: segC, rnd: &vRng{s: uint64(len(ops))*31 + uint64(B)}}}
+			rec = &vC13Rec{budget: -1, Conn: &vC13Seg{Conn: nc, mode: segC, rnd: &vRng{s: uint64(len(ops))*31 + uint64(B)}}}
 			return rec, nil
 		}}
 	if srvWrites {
@@ -342,8 +349,9 @@ func vC13Session(c vSx) (res vC13Result) {
 		}
 	}
 	cc, resp, err := d.Dial("ws"+strings.TrimPrefix(vC13Srv.URL, "http")+"/x", nil)
-	vC13Hook = nil
-	vC13SegS = 0
+	// the hook is cleared only once the handler has reported: Dial returns as soon as the 101
+	// response is read, which can be before Upgrade has returned on the server side
+	defer func() { vC13Hook = nil; vC13SegS = 0 }()
 	if err != nil {
 		select {
 		case <-vC13ConnCh:
@@ -453,6 +461,20 @@ func vC13Session(c vSx) (res vC13Result) {
 		close(wdone)
 	}()
 
+	if failAt >= 0 {
+		// arm the transport fault of the writer endpoint now that the handshake is over
+		if srvWrites {
+			if sg, ok := W.UnderlyingConn().(*vC13Seg); ok {
+				sg.mu.Lock()
+				sg.wbudget, sg.armed = failAt, true
+				sg.mu.Unlock()
+			}
+		} else {
+			rec.mu.Lock()
+			rec.budget = failAt
+			rec.mu.Unlock()
+		}
+	}
 	runOps(early, len(ops))
 	for _, e := range expCtl {
 		if e.t == CloseMessage {
@@ -510,7 +532,7 @@ func vC13Session(c vSx) (res vC13Result) {
 	res.obs = vL(vZ(0), vLs(codes), vC13WireSx(wire))
 
 	// ---- direct oracles (independent of the model)
-	if !whole {
+	if !whole && failAt < 0 {
 		bad("wire-parses", fmt.Sprintf("wire of %d bytes does not split into whole frames (%d parsed)", len(wire), len(frames)))
 	}
 	multi := false
